@@ -62,8 +62,8 @@ class Rep:
             g = twist3_gens(tier, seed)
         else:
             g = twist2_gens(tier, seed)
-        if tier == 'quick':
-            g = g[:9]
+        if tier == 'quick' and len(g) > 10:
+            g = alph.subset(g, 10, 4)
         self.gens = g
 
     # library object from reference value
@@ -119,7 +119,8 @@ class Rep:
 def twist3_gens(tier, seed):
     out = [('0', np.zeros(6))]
     axes = alph.axes(tier, seed, neardeg=False)
-    ths = [('0.3', 0.3), ('1.9', 1.9), ('pi-1e-9', math.pi - 1e-9), ('1e-9', 1e-9), ('pi/2', math.pi / 2), ('2.9', 2.9)]
+    ths = [('0.3', 0.3), ('1.9', 1.9), ('pi-1e-9', math.pi - 1e-9), ('1e-9', 1e-9), ('pi/2', math.pi / 2), ('2.9', 2.9),
+           ('3e-6', 3e-6), ('pi-1e-12', math.pi - 1e-12)]
     vs = [('0', np.zeros(3)), ('g', np.array([0.5, -1.5, 2.0])), ('1e3', 1e3 * alph.unit((1, 2, 3))), ('1e-6', 1e-6 * alph.unit((3, 1, 2)))]
     for (an, a) in axes:
         for (tn, th) in ths:
@@ -129,18 +130,21 @@ def twist3_gens(tier, seed):
                     out.append((name, np.r_[v, th * a]))
     out.append(('w=0,v=g', np.r_[1.0, -2.0, 0.5, 0, 0, 0]))
     out.append(('w=0,v=1e6', np.r_[1e6 * alph.unit((1, 2, 3)), 0, 0, 0]))
+    out.append(('w=3e-6*g,v=g', np.r_[0.5, -1.5, 2.0, 3e-6 * alph.unit((1, 2, 3))]))
+    out.append(('w=(pi-1e-12)*g,v=g', np.r_[0.5, -1.5, 2.0, (math.pi - 1e-12) * alph.unit((-2, 1, 0.5))]))
     return out
 
 
 def twist2_gens(tier, seed):
     out = [('0', np.zeros(3))]
-    for tn, th in [('0.3', 0.3), ('-1.9', -1.9), ('pi-1e-9', math.pi - 1e-9), ('1e-9', 1e-9), ('pi/2', math.pi / 2), ('-2.9', -2.9)]:
+    for tn, th in [('0.3', 0.3), ('-1.9', -1.9), ('pi-1e-9', math.pi - 1e-9), ('1e-9', 1e-9), ('pi/2', math.pi / 2), ('-2.9', -2.9),
+                   ('3e-6', 3e-6), ('-1e-6', -1e-6)]:
         for vn, v in [('0', (0, 0)), ('g', (0.5, -1.5)), ('1e3', (600.0, 800.0))]:
             out.append(('w=%s,v=%s' % (tn, vn), np.r_[v, th]))
     out.append(('w=0,v=g', np.r_[1.0, -2.0, 0.0]))
     out.append(('w=0,v=1e6', np.r_[6e5, 8e5, 0.0]))
     if tier == 'quick':
-        out = [o for o in out if o[0] in ('0', 'w=0,v=g', 'w=0,v=1e6') or alph.thin(o[0], tier, 3, 1)]
+        out = [o for o in out if o[0] in ('0', 'w=0,v=g', 'w=0,v=1e6', 'w=3e-6,v=g', 'w=-1e-6,v=1e3') or alph.thin(o[0], tier, 3, 1)]
     return out
 
 
@@ -463,7 +467,7 @@ def bfs(ctx, rep, k, K):
             for mn, mv in moves:
                 name = '%s.%s' % (sn, mn)
                 cid = 'C02/%s/bfs/%s' % (c, name)
-                if not ctx.want(cid):
+                if not ctx.want(cid, walk=True):
                     continue
                 ctx.case(cid)
                 ntrans += 1
@@ -524,6 +528,26 @@ def seq_laws(ctx, rep):
             if len(XY.data) != len(s) or len(XYi.data) != len(s) or len(YiXi.data) != len(s):
                 ctx.fail(cid, c + '.mul', 'mismatch', P, 'sequence lengths %d %d %d' % (len(XY.data), len(XYi.data), len(YiXi.data)))
                 continue
+            # every operator applied to the sequence equals the single-valued operator on the elements
+            seqops = [('inv', lambda a, b: a.inv())]
+            if hasdiv(rep):
+                seqops.append(('div', lambda a, b: a / b))
+                seqops += [('pow%d' % n, (lambda n: (lambda a, b: a ** n))(n)) for n in range(-8, 9)]
+            for on, of in seqops:
+                whole = lib(ctx, cid, c + '.' + on.rstrip('-0123456789'), dict(P, seqop=on), of, X, Y)
+                if whole is None:
+                    continue
+                if type(whole) is not rep.C or len(whole.data) != len(s):
+                    ctx.fail(cid, c + '.' + on.rstrip('-0123456789'), 'mismatch', dict(P, seqop=on), 'sequence %s gives %s with %d values' % (on, type(whole).__name__, len(getattr(whole, 'data', []))))
+                    continue
+                for i in range(len(s)):
+                    one = lib(ctx, cid, c + '.' + on.rstrip('-0123456789'), dict(P, seqop=on, i=i), of, rep.make(s[i][1]), rep.make(t[i][1]))
+                    if one is None:
+                        continue
+                    okk, d = rep.same(whole.data[i], one.data[0], rep.scale(whole.data[i], one.data[0]))
+                    if not okk:
+                        ctx.fail(cid, c + '.' + on.rstrip('-0123456789'), 'mismatch', dict(P, seqop=on, i=i),
+                                 'element %d of sequence %s differs from the single-valued result by %.3g' % (i, on, d))
             for i in range(len(s)):
                 r = rep.ref_mul(s[i][1], t[i][1])
                 v = XY.data[i]
